@@ -9,19 +9,19 @@
   user's ledger grows by the returned roots (`ledger5`); when it raises, the `except` clause has
   given every temporary reference back and the ledger is unchanged.
 
-  Guards (`OpGuard5`).  `.loadJson f`: no node line of the file has the terminal's id `1` (a quirk
-  of the code: such a line is processed like any other and overwrites the cache entry of the
-  terminal, DESIGN §7 observations), and dynamic reordering is not enabled at that point (the
-  per-operation theorem `loadJson_false_any` is for `_last_len = None`; with reordering enabled the
-  loader's `bdd.var` / `bdd.ite` calls could sift while it holds its shelf — no theorem).
+  Guards (`OpGuard5`).  `.loadJson f`: ANY content (a node line with the terminal's id `1` is
+  refused by the loader since F18); dynamic reordering is not enabled at that point
+  (`loadJson_false_any`), or it is and two variables are declared (`loadJson_false_any_dyn`: the
+  loader's `bdd.var` / `bdd.ite` calls may sift while it holds its shelf; with fewer than two
+  variables a request would make sifting raise — no theorem for the loader there).
   `.copyVars src names`: the documented obligations of `copy_vars` — the source order is a
   bijection, `names` is a permutation of its variables (else the model reports a schedule
   mismatch), the target declares nothing that disagrees with the source (else levels collide and
   a gap may stay, F7) — as decidable checks.
 
-  NOT covered, and why.  `load_json(load_order=True)`: on main only for well-formed files, under
-  the model-artefact hypothesis `PredNodes`, and without "held references keep their meaning"
-  (`loadJson_true_spec`).  `dd.dddmp.load`: it builds a NEW manager (a start state, not a step);
+  NOT covered, and why.  `load_json(load_order=True)` is not an operation of `UOp5` (it changes the
+  switch both ways and the order; its per-operation theorem for ANY content is
+  `C17_load_json_order_any`, DDProps/C17Load2.lean).  `dd.dddmp.load`: it builds a NEW manager (a start state, not a step);
   `C16_load_spec` concludes `Inv` only (no `OrderOK` / `RefExact`; `C16_load_good` and
   `C16_then_every_history` give the good state and the histories that start there — the tokens of
   DD.Dddmp are `DD.DddmpTok`, so DD.Dddmp imports next to DD.Parse, see DDProps/All.lean).
@@ -29,6 +29,8 @@
 import DDProofs.Reach4
 import DDProofs.Reach4Start
 import DDProofs.LoadRejected
+import DDProofs.LoadJson2Dyn
+import DDProofs.LoadJson2Off
 import DDProps.C11CopyVars
 open Std
 
@@ -85,7 +87,7 @@ theorem varsSub_of_check {src t : Tbl} (h : varsSubB src t = true) :
 
 def OpGuard5 (m : Mgr) (ext : Nat → Nat) : UOp5 → Prop
   | .op o => OpGuard4 m ext o
-  | .loadJson f => m.lastLen = none ∧ ∀ ln ∈ f.nodes, ln.id ≠ 1
+  | .loadJson _ => m.lastLen = none ∨ 2 ≤ m.nvars
   | .copyVars src names => orderOKB src = true ∧ names.Perm src.vars.keys ∧ varsSubB src m.tbl = true
 
 instance (m : Mgr) (ext : Nat → Nat) (op : UOp5) : Decidable (OpGuard5 m ext op) := by
@@ -98,12 +100,12 @@ def UOp5.switchAfter : UOp5 → Bool → Bool
 /-! ### `load_json` -/
 
 theorem loadJson_step5 (m : Mgr) (ext : Nat → Nat) (h : Good3 m ext) (f : JsonFile)
-    (hoff : m.lastLen = none) (hid : ∀ ln ∈ f.nodes, ln.id ≠ 1) :
+    (hoff : m.lastLen = none) :
     Good3 (loadJson f false m).2 (ledger5 (.loadJson f) m ext) ∧
     Held2 ext m (loadJson f false m).2 ∧ (loadJson f false m).2.lastLen = none ∧
     (∀ (v : String) (i : Nat), m.tbl.vars[v]? = some i → (loadJson f false m).2.tbl.vars[v]? = some i) := by
   have hgs : GoodState m ext := ⟨h.inv, h.order, h.exact, hoff, h.ctx⟩
-  obtain ⟨kv, hout⟩ := loadJson_false_any f hid m ext hgs
+  obtain ⟨kv, hout⟩ := loadJson_false_any f m ext hgs
   have hg' : GoodState (loadJson f false m).2 (ledger5 (.loadJson f) m ext) := by
     show GoodState _ (jsonLedger (loadJson f false m).1 ext)
     unfold jsonLedger
@@ -113,6 +115,31 @@ theorem loadJson_step5 (m : Mgr) (ext : Nat → Nat) (h : Good3 m ext) (f : Json
   refine ⟨hg'.good3 (kv.sched.trans h.sched) (kv.roots.trans h.roots), fun u hu => ?_, hg'.off, kv.vars⟩
   have hmu := h.exact.mem_of_ext_pos hu
   exact ⟨kv.mem hmu, fun σ => denN_of_keptV h.inv h.order hg'.order kv u hmu σ⟩
+
+/-- `load_json(load_order=False)` of ANY content with dynamic reordering possibly ENABLED, two
+variables declared: the state is good for the new ledger, every held reference keeps its function
+by name (levels may have moved), reordering is enabled iff it was -/
+theorem loadJson_step5_dyn (m : Mgr) (ext : Nat → Nat) (h : Good3 m ext) (f : JsonFile)
+    (h2 : 2 ≤ m.nvars) :
+    Good3 (loadJson f false m).2 (ledger5 (.loadJson f) m ext) ∧
+    Held2 ext m (loadJson f false m).2 ∧
+    (loadJson f false m).2.lastLen.isSome = m.lastLen.isSome := by
+  have L := loadJson_false_any_dyn f m ext (h.dynInv h2)
+  have hroots : (loadJson f false m).2.roots = [] := L.left.roots.trans h.roots
+  refine ⟨?_, fun u hu => L.left.held u (Or.inr hu) (h.exact.mem_of_ext_pos hu), L.left.enabled⟩
+  show Good3 _ (jsonLedger (loadJson f false m).1 ext)
+  unfold jsonLedger
+  have hst := L.state
+  cases hr : (loadJson f false m).1 with
+  | ok roots => rw [hr] at hst; exact hst.good3 hroots
+  | error e => rw [hr] at hst; exact hst.good3 hroots
+
+/-- the JSON loader never lets the internal reordering signal escape -/
+theorem loadJson_noSignal5 (m : Mgr) (ext : Nat → Nat) (h : Good3 m ext) (f : JsonFile)
+    (hg : m.lastLen = none ∨ 2 ≤ m.nvars) : (loadJson f false m).1 ≠ .error .needsReordering := by
+  rcases hg with hoff | h2
+  · exact loadJson_false_noSignal_off f m ext ⟨h.inv, h.order, h.exact, hoff, h.ctx⟩
+  · exact (loadJson_false_any_dyn f m ext (h.dynInv h2)).noSignal
 
 /-! ### `copy_vars` -/
 
@@ -206,10 +233,13 @@ theorem step5_all (m : Mgr) (ext : Nat → Nat) (op : UOp5) (h : Good3 m ext) (h
   cases op with
   | op o => exact ⟨step4_inv m ext o h hg, step4_heldSame m ext o h hg, step4_switch m ext o h hg⟩
   | loadJson f =>
-    obtain ⟨a, b, c, -⟩ := loadJson_step5 m ext h f hg.1 hg.2
-    refine ⟨a, b, fun _ => ?_⟩
-    show (loadJson f false m).2.lastLen.isSome = m.lastLen.isSome
-    rw [c, hg.1]
+    rcases hg with hoff | h2
+    · obtain ⟨a, b, c, -⟩ := loadJson_step5 m ext h f hoff
+      refine ⟨a, b, fun _ => ?_⟩
+      show (loadJson f false m).2.lastLen.isSome = m.lastLen.isSome
+      rw [c, hoff]
+    · obtain ⟨a, b, c⟩ := loadJson_step5_dyn m ext h f h2
+      exact ⟨a, b, fun _ => c⟩
   | copyVars src names =>
     obtain ⟨m', hrun, a, b, c, -⟩ := copyVars_step5 m ext h src names (orderOK_of_check hg.1) hg.2.1
       (varsSub_of_check hg.2.2)
@@ -231,13 +261,12 @@ theorem step5_switch (m : Mgr) (ext : Nat → Nat) (op : UOp5) (h : Good3 m ext)
     (runOp5 op m).2.lastLen.isSome = op.switchAfter m.lastLen.isSome :=
   (step5_all m ext op h hg).2.2 hsafe
 
-/-- the internal signal never reaches the user (for the JSON loader no theorem says so: its
-per-operation theorem describes the state only) -/
-theorem step5_noSignal (m : Mgr) (ext : Nat → Nat) (op : UOp5) (h : Good3 m ext) (hg : OpGuard5 m ext op)
-    (hne : ∀ f, op ≠ .loadJson f) : (runOp5 op m).1 ≠ .error .needsReordering := by
+/-- the internal signal never reaches the user -/
+theorem step5_noSignal (m : Mgr) (ext : Nat → Nat) (op : UOp5) (h : Good3 m ext) (hg : OpGuard5 m ext op) :
+    (runOp5 op m).1 ≠ .error .needsReordering := by
   cases op with
   | op o => exact step4_noSignal m ext o h hg
-  | loadJson f => exact absurd rfl (hne f)
+  | loadJson f => exact mapRes_noSignal _ _ (loadJson_noSignal5 m ext h f hg)
   | copyVars src names =>
     obtain ⟨m', hrun, -⟩ := copyVars_step5 m ext h src names (orderOK_of_check hg.1) hg.2.1
       (varsSub_of_check hg.2.2)
